@@ -7,7 +7,7 @@ import (
 func init() {
 	Runners["C14"] = fileRunner(RunC14)
 	harness.Specs["C14"] = &harness.PropSpec{
-		ID: "C14", Test: "TestC14", Kind: "file", Level: "exploration",
+		ID: "C14", Test: "TestC14", Kind: "file", Level: "exploration", FuzzTargets: []string{"FuzzC14"}, FuzzSeconds: 180,
 		Quick: 8000, Thorough: 250000,
 		Rule: "generated history H on (old max, prealloc; transactions may use the overflow area; a quarter of the cases ends H with 'file completely full, overflow transaction'), close, open with FlagUpdMaxSize and a generated new maximum (larger, smaller >= 64 KiB, equal, unbounded) x " +
 			"prealloc, then lock-state probe + BeginReadonly + Begin (content verification and capacity probe), further history K, close, plain open, verification; " +
